@@ -23,13 +23,13 @@ RULE = ('Signature-driven constructor arguments (G5): for every model class with
         'present/absent (sweep job: all subsets of up to 6 optionals per class, once), lists have 0-3 elements, strings/comments come from the hazard '
         'domains, numbers may be negative, custom value sequences contain consecutive signed numbers and amounts; nested construction (postings with '
         'cost and price inside transactions, meta with every value kind, directives assembled into a File). Oracle: the constructed tree satisfies '
-        'the structural invariants and spans its whole store; parse(print(m), type(m)) succeeds; semantic digests and block-comment lines are equal; '
+        'the structural invariants and spans its whole store; parse(print(m), type(m)) succeeds; semantic digests and block-comment lines are equal; the leading comment on the first line / trailing comment on the last line belongs to the same part of the model before and after; '
         'for from_value the value-level getters return the arguments (payee implies narration). Non-trivial = >= 2 optional arguments present, or a '
         'list argument of length >= 2, or a string needing an escape, or a negative number.')
 ASSUMPTIONS = ['parse(...) == constructed is not asserted (parsed bodies carry a dedent mark)',
                'CostSpec.from_value with both numbers and no currency is a documented rejection (ValueError)']
 SHRINK_LISTS = ()
-REQUIRED_CLASSES = ('how:from_value', 'how:from_children', 'cls:Transaction', 'cls:Posting', 'cls:File', 'cls:Custom', 'cls:CostSpec', 'cls:MetaItem', 'cls:Open')
+REQUIRED_CLASSES = ('comment-owners-compared', 'how:from_value', 'how:from_children', 'cls:Transaction', 'cls:Posting', 'cls:File', 'cls:Custom', 'cls:CostSpec', 'cls:MetaItem', 'cls:Open')
 
 EXPR_CLASSES = ['NumberAddExpr', 'NumberMulExpr', 'NumberUnaryExpr', 'NumberParenExpr']
 CLASSES = ['Amount', 'Tolerance', 'UnitPrice', 'TotalPrice', 'CompoundAmount', 'UnitCost', 'TotalCost', 'CostSpec', 'NumberExpr', 'MetaItem', 'Posting',
@@ -357,6 +357,46 @@ def run_case(case: dict) -> Result:
         res.bad(f'digest:{key}', f'{key}: constructed and re-parsed content differ at {O.digest_diff(d1, d2)}; printed {text!r}')
     elif O.comment_lines(m) != O.comment_lines(again):
         res.bad(f'comments:{key}', f'{key}: comment lines {O.comment_lines(m)!r} re-parse as {O.comment_lines(again)!r}; printed {text!r}')
+    if not res.violations:
+        # who owns which comment ("the same fields and values"): compared unless two comment blocks touch in the printed text - adjacent
+        # comment lines parse as one block, and which owner gets it is then a question of attribution rules (C14), not of construction
+        from vf.props import c14
+        blocks = [t for t in O.store_tokens(again.token_store) if isinstance(t, BlockComment)]
+        n_built = sum(1 for t in O.store_tokens(m.token_store) if isinstance(t, BlockComment))
+        if blocks and n_built == len(blocks):
+            classes.add('comment-owners-compared')
+            try:
+                o1, o2 = c14.omap(m), c14.omap(again)
+            except Exception:  # noqa: BLE001
+                o1 = o2 = None
+            if o1 is not None:
+                # a standalone comment placed next to a model is that model's comment by the documented rules once parsed: only comments given
+                # to a model as its leading / trailing comment are compared
+                # ... and only where no other model line follows (trailing) / precedes (leading) the comment: a trailing comment directly above
+                # a sibling is that sibling's leading comment by the documented order
+                n_lines = text.rstrip('\r\n \t').count('\n')
+                last_block_start = n_lines - blocks[-1].raw_text.count('\n')
+                keep = [i for i, x in enumerate(o1) if any("'item'" not in h for h in x[2]) and
+                        ((i == len(o1) - 1 and x[0] == last_block_start and any("'trailing'" in h for h in x[2])) or
+                         (i == 0 and x[0] == 0 and any("'leading'" in h for h in x[2])))]
+                o1, o2 = [o1[i] for i in keep], [o2[i] for i in keep]
+            if o1 != o2:
+                import ast
+                bucket = f'comment-owner:{key}'
+                try:
+                    x, y = next((a, b) for a, b in zip(o1, o2) if a != b)
+                    h1, h2 = ast.literal_eval(x[2][0]), ast.literal_eval(y[2][0])
+                    if h1[0] == h2[0] == 'trailing' and h2[1][1] < h1[1][1]:
+                        # open finding: the last line of a nested body given to the inner item comes back as the enclosing model's
+                        bucket = 'comment-owner:inner-trailing-comment-goes-to-enclosing-model'
+                    elif h2[0] == 'item' and h2[1][0] == 'Transaction' and h2[1][2] == '_postings':
+                        bucket = None   # the layout of C14's open finding (a transaction with meta and no postings)
+                        res.excluded_known += 1
+                except Exception:  # noqa: BLE001
+                    pass
+                if bucket:
+                    res.bad(bucket, f'{key}: a comment given to one part of the constructed model belongs to another part after print and parse: '
+                            f'{c14._mdiff(o1, o2)}; printed {text!r}')
     if how == 'from_value' and not res.violations:
         exp = expected_getters(spec)
         if cname == 'Transaction' and exp.get('payee') is not None and exp.get('narration') is None and 'narration' in exp:
